@@ -16,7 +16,9 @@
    Part 5: the three-level InheritableSQLObject chain: listener propagation
            to subclasses (events.listen / _makeSubclassConnectionsPost) and
            `chain_create` after inheritance/__init__.py _create with the
-           per-thread list of postponed RowCreatedSignals. *)
+           per-thread list of postponed RowCreatedSignals.
+   Listeners and callbacks may raise (once each): the operation ends there as
+   the code does; see "receivers and callbacks that raise" in Part 2. *)
 From Coq Require Import List ZArith NArith Bool.
 Import ListNotations.
 Open Scope Z_scope.
@@ -91,8 +93,11 @@ Definition sig_eqb (a b : sig) : bool :=
 (* listener programs: every listener records its call; then
    ALog does nothing more, ASet c v does kwargs[c] = v, ADel c does
    kwargs.pop(c, None), APost t appends a callback (which records `t`) to
-   post_funcs *)
-Inductive act := ALog | ASet (c : col) (v : val) | ADel (c : col) | APost (tag : Z).
+   post_funcs; ARaise raises -- once: the first time it is called, later it
+   only records; APostRaise t appends a callback that records `t` and, the
+   first time one of this listener's callbacks runs, raises *)
+Inductive act := ALog | ASet (c : col) (v : val) | ADel (c : col) | APost (tag : Z)
+               | ARaise | APostRaise (tag : Z).
 Definition listener := (sig * act)%type.
 
 Inductive write (K : Type) :=
@@ -144,9 +149,19 @@ Fixpoint sig_events {K} (s : sig) (k : K) (id : option Z) (L : list (Z * act)) (
   | l :: r => ESig s k id kw (fst l) :: sig_events s k id r (apply_act s (snd l) kw)
   end.
 
-(* the tags of the callbacks appended to post_funcs, in order *)
-Definition posts (s : sig) (L : list (Z * act)) : list Z :=
-  flat_map (fun l => match snd l with APost t => if has_posts s then [t] else [] | _ => [] end) L.
+(* the callbacks appended to post_funcs, in order: tag, appending listener,
+   "raises when it runs for the first time" *)
+Definition post_items (s : sig) (L : list (Z * act)) : list (Z * Z * bool) :=
+  flat_map (fun l => if has_posts s
+                     then match snd l with
+                          | APost t => [(t, fst l, false)]
+                          | APostRaise t => [(t, fst l, true)]
+                          | _ => []
+                          end
+                     else []) L.
+Definition item_tag (it : Z * Z * bool) : Z := fst (fst it).
+(* their tags *)
+Definition posts (s : sig) (L : list (Z * act)) : list Z := map item_tag (post_items s L).
 
 Definition run_posts {K} (s : sig) (k : K) (id : Z) (ts : list Z) : list (ev K) :=
   map (fun t => EPost s t k id) ts.
@@ -155,6 +170,61 @@ Definition run_posts {K} (s : sig) (k : K) (id : Z) (ts : list Z) : list (ev K) 
 Definition after_part {K} (tab : list (Z * listener)) (s : sig) (k : K) (id : Z) : list (ev K) :=
   let L := sel s tab in
   sig_events s k (Some id) L [] ++ run_posts s k id (posts s L).
+
+(* --- receivers and callbacks that raise ------------------------------ *)
+(* PyDispatcher's send() does not catch: a raising receiver ends the delivery
+   (the later receivers are not called) and the exception leaves the
+   operation at that point; `for f in post_funcs: f(obj)` likewise.
+   `fired` = the one-shot listeners that have already raised. *)
+Definition is_raise (a : act) : bool := match a with ARaise => true | _ => false end.
+Definition live (fired : list Z) (i : Z) : bool := negb (existsb (Z.eqb i) fired).
+Definition is_some {A} (o : option A) : bool := match o with Some _ => true | None => false end.
+Definition fire (fired : list Z) (o : option Z) : list Z :=
+  match o with Some i => i :: fired | None => fired end.
+
+(* the receiver that raises in this delivery, if any; the receivers reached *)
+Fixpoint raiser (fired : list Z) (L : list (Z * act)) : option Z :=
+  match L with
+  | [] => None
+  | l :: r => if is_raise (snd l) && live fired (fst l) then Some (fst l) else raiser fired r
+  end.
+Fixpoint cut (fired : list Z) (L : list (Z * act)) : list (Z * act) :=
+  match L with
+  | [] => []
+  | l :: r => if is_raise (snd l) && live fired (fst l) then [l] else l :: cut fired r
+  end.
+Fixpoint praiser (fired : list Z) (items : list (Z * Z * bool)) : option Z :=
+  match items with
+  | [] => None
+  | it :: r => if snd it && live fired (snd (fst it)) then Some (snd (fst it)) else praiser fired r
+  end.
+Fixpoint pcut (fired : list Z) (items : list (Z * Z * bool)) : list (Z * Z * bool) :=
+  match items with
+  | [] => []
+  | it :: r => if snd it && live fired (snd (fst it)) then [it] else it :: pcut fired r
+  end.
+
+(* a phase of an operation: what it added to the trace, the fired set
+   afterwards, whether it ended in an exception *)
+Record phase (K : Type) := { p_tr : list (ev K); p_fired : list Z; p_raised : bool }.
+Arguments p_tr {K}. Arguments p_fired {K}. Arguments p_raised {K}.
+
+(* `for f in post_funcs: f(obj)` *)
+Definition posts_x {K} (fired : list Z) (s : sig) (k : K) (id : Z) (L : list (Z * act)) : phase K :=
+  let items := post_items s L in
+  {| p_tr := run_posts s k id (map item_tag (pcut fired items));
+     p_fired := fire fired (praiser fired items);
+     p_raised := is_some (praiser fired items) |}.
+
+(* send(s, instance, post_funcs); for f in post_funcs: f(instance) *)
+Definition after_x {K} (tab : list (Z * listener)) (fired : list Z) (s : sig) (k : K) (id : Z) : phase K :=
+  let L := sel s tab in
+  match raiser fired L with
+  | Some i => {| p_tr := sig_events s k (Some id) (cut fired L) []; p_fired := i :: fired; p_raised := true |}
+  | None =>
+      let b := posts_x fired s k id L in
+      {| p_tr := sig_events s k (Some id) L [] ++ p_tr b; p_fired := p_fired b; p_raised := p_raised b |}
+  end.
 
 (* ------------------------------------------------------------------ *)
 (* Part 3: plain classes                                                *)
@@ -176,11 +246,12 @@ Record hstate := { h_pend : kwargs }.
 Record kstate := {
   k_tbl : list (Z * kwargs);     (* rows in rowid order; a row lists all columns in creationOrder *)
   k_next : Z;                    (* next AUTOINCREMENT id *)
-  k_hs : list (Z * hstate)       (* one instance per created id *)
+  k_hs : list (Z * hstate);      (* one instance per created id whose constructor returned *)
+  k_fired : list Z               (* one-shot raising listeners of the class that have raised *)
 }.
 Record state := { s_e : kstate; s_l : kstate }.
 
-Definition init_k : kstate := {| k_tbl := []; k_next := 1; k_hs := [] |}.
+Definition init_k : kstate := {| k_tbl := []; k_next := 1; k_hs := []; k_fired := [] |}.
 Definition init : state := {| s_e := init_k; s_l := init_k |}.
 
 Definition ks (st : state) (k : cls) : kstate :=
@@ -212,7 +283,8 @@ Definition tbl_delete (id : Z) (t : list (Z * kwargs)) : list (Z * kwargs) :=
 Definition tbl_has (id : Z) (t : list (Z * kwargs)) : bool :=
   existsb (fun r => Z.eqb (fst r) id) t.
 
-Inductive exn := XInvalid | XTypeError | XKeyError | XNotFound | XDuplicate.
+Inductive exn := XInvalid | XTypeError | XKeyError | XNotFound | XDuplicate
+               | XBoom.   (* what a raising listener / callback raises *)
 Inductive outcome :=
 | Done
 | Ids (l : list Z)          (* rows handed out by a fetch *)
@@ -234,6 +306,7 @@ Record ures := {
   u_out : outcome;
   u_tr : list (ev cls);
   u_pend : kwargs;
+  u_fired : list Z;
   u_upds : list kwargs
 }.
 
@@ -252,26 +325,36 @@ Fixpoint fill_defaults (cs : list col) (kw : kwargs) : option kwargs :=
 
 (* SQLObject.set on a created instance.  sup = row_update_sig_suppress is set
    (the call comes from _SO_setValue, which has sent the RowUpdateSignal). *)
-Definition set_core (g : cfg) (k : cls) (id : Z) (pend : kwargs) (sup : bool) (kw : kwargs) : ures :=
+Definition set_core (g : cfg) (k : cls) (id : Z) (pend : kwargs) (fired : list Z) (sup : bool) (kw : kwargs) : ures :=
   let L := sel SUpdate (tab g k) in
+  if negb sup && is_some (raiser fired L) then
+    (* a RowUpdateSignal receiver raised: nothing validated, nothing written *)
+    {| u_out := Exn XBoom; u_tr := sig_events SUpdate k (Some id) (cut fired L) kw; u_pend := pend;
+       u_fired := fire fired (raiser fired L); u_upds := [] |}
+  else
   let tr1 := if sup then [] else sig_events SUpdate k (Some id) L kw in
   let kw1 := if sup then kw else final_kw SUpdate L kw in
   if negb (validate kw1) then
-    {| u_out := Exn XInvalid; u_tr := tr1; u_pend := pend; u_upds := [] |}
+    {| u_out := Exn XInvalid; u_tr := tr1; u_pend := pend; u_fired := fired; u_upds := [] |}
   else if is_lazy k then
-    {| u_out := Done; u_tr := tr1; u_pend := kw_update pend kw1; u_upds := [] |}
+    {| u_out := Done; u_tr := tr1; u_pend := kw_update pend kw1; u_fired := fired; u_upds := [] |}
   else
     let w := sort_cols kw1 in
-    {| u_out := Done;
-       u_tr := tr1 ++ (if is_nil w then [] else [EWrite (WUpdate k id w)])
-                   ++ after_part (tab g k) SUpdated k id;
-       u_pend := pend;
+    (* the UPDATE has run when RowUpdatedSignal / its callbacks raise *)
+    let a := after_x (tab g k) fired SUpdated k id in
+    {| u_out := if p_raised a then Exn XBoom else Done;
+       u_tr := tr1 ++ (if is_nil w then [] else [EWrite (WUpdate k id w)]) ++ p_tr a;
+       u_pend := pend; u_fired := p_fired a;
        u_upds := if is_nil w then [] else [w] |}.
 
 (* _SO_setValue on a created instance *)
-Definition assign_core (g : cfg) (k : cls) (id : Z) (pend : kwargs) (c : col) (v : val) : ures :=
+Definition assign_core (g : cfg) (k : cls) (id : Z) (pend : kwargs) (fired : list Z) (c : col) (v : val) : ures :=
   let L := sel SUpdate (tab g k) in
   let d0 := [(c, v)] in
+  if is_some (raiser fired L) then
+    {| u_out := Exn XBoom; u_tr := sig_events SUpdate k (Some id) (cut fired L) d0; u_pend := pend;
+       u_fired := fire fired (raiser fired L); u_upds := [] |}
+  else
   let tr1 := sig_events SUpdate k (Some id) L d0 in
   let d := final_kw SUpdate L d0 in
   if negb (Nat.eqb (length d) 1) || negb (kw_has c d) then
@@ -281,37 +364,41 @@ Definition assign_core (g : cfg) (k : cls) (id : Z) (pend : kwargs) (c : col) (v
        validated and stored with one UPDATE (none if it is empty), then
        RowUpdatedSignal and its callbacks; lazy: the dict goes to the pending
        values *)
-    let r := set_core g k id pend true d in
-    {| u_out := u_out r; u_tr := tr1 ++ u_tr r; u_pend := u_pend r; u_upds := u_upds r |}
+    let r := set_core g k id pend fired true d in
+    {| u_out := u_out r; u_tr := tr1 ++ u_tr r; u_pend := u_pend r; u_fired := u_fired r; u_upds := u_upds r |}
   else
     match kw_get c d with
     | None => (* not reachable: c is a key of d here *)
-        {| u_out := Exn XKeyError; u_tr := tr1; u_pend := pend; u_upds := [] |}
+        {| u_out := Exn XKeyError; u_tr := tr1; u_pend := pend; u_fired := fired; u_upds := [] |}
     | Some v' =>
         if negb (val_ok (col_ty c) v') then
-          {| u_out := Exn XInvalid; u_tr := tr1; u_pend := pend; u_upds := [] |}
+          {| u_out := Exn XInvalid; u_tr := tr1; u_pend := pend; u_fired := fired; u_upds := [] |}
         else if is_lazy k then
-          {| u_out := Done; u_tr := tr1; u_pend := kw_set c v' pend; u_upds := [] |}
+          {| u_out := Done; u_tr := tr1; u_pend := kw_set c v' pend; u_fired := fired; u_upds := [] |}
         else
-          {| u_out := Done;
-             u_tr := tr1 ++ [EWrite (WUpdate k id [(c, v')])] ++ after_part (tab g k) SUpdated k id;
-             u_pend := pend; u_upds := [[(c, v')]] |}
+          let a := after_x (tab g k) fired SUpdated k id in
+          {| u_out := if p_raised a then Exn XBoom else Done;
+             u_tr := tr1 ++ [EWrite (WUpdate k id [(c, v')])] ++ p_tr a;
+             u_pend := pend; u_fired := p_fired a; u_upds := [[(c, v')]] |}
     end.
 
-(* syncUpdate *)
-Definition sync_core (g : cfg) (k : cls) (id : Z) (pend : kwargs) : ures :=
-  if is_nil pend then {| u_out := Done; u_tr := []; u_pend := pend; u_upds := [] |}
+(* syncUpdate: the pending values are written and forgotten before
+   RowUpdatedSignal is sent *)
+Definition sync_core (g : cfg) (k : cls) (id : Z) (pend : kwargs) (fired : list Z) : ures :=
+  if is_nil pend then {| u_out := Done; u_tr := []; u_pend := pend; u_fired := fired; u_upds := [] |}
   else
     let w := sort_cols pend in
-    {| u_out := Done;
-       u_tr := [EWrite (WUpdate k id w)] ++ after_part (tab g k) SUpdated k id;
-       u_pend := []; u_upds := [w] |}.
+    let a := after_x (tab g k) fired SUpdated k id in
+    {| u_out := if p_raised a then Exn XBoom else Done;
+       u_tr := [EWrite (WUpdate k id w)] ++ p_tr a;
+       u_pend := []; u_fired := p_fired a; u_upds := [w] |}.
 
 Definition commit_ures (st : state) (k : cls) (id : Z) (r : ures) : state * outcome * list (ev cls) :=
   let s := ks st k in
   (set_ks st k {| k_tbl := fold_left (fun t u => tbl_update id u t) (u_upds r) (k_tbl s);
                   k_next := k_next s;
-                  k_hs := h_put id {| h_pend := u_pend r |} (k_hs s) |},
+                  k_hs := h_put id {| h_pend := u_pend r |} (k_hs s);
+                  k_fired := u_fired r |},
    u_out r, u_tr r).
 
 Definition with_handle (st : state) (k : cls) (id : Z)
@@ -325,8 +412,15 @@ Definition step (g : cfg) (st : state) (o : op) : state * outcome * list (ev cls
   match o with
   | OCreate k kw0 =>
       let s := ks st k in
+      let fired := k_fired s in
       let L := sel SCreate (tab g k) in
       let kw := mk_kw kw0 in
+      match raiser fired L with
+      | Some i =>
+          (* a RowCreateSignal receiver raised; the finally finds nothing postponed *)
+          (set_ks st k {| k_tbl := k_tbl s; k_next := k_next s; k_hs := k_hs s; k_fired := i :: fired |},
+           Exn XBoom, sig_events SCreate k None (cut fired L) kw)
+      | None =>
       let tr1 := sig_events SCreate k None L kw in
       match fill_defaults all_cols (final_kw SCreate L kw) with
       | None => (st, Exn XTypeError, tr1)
@@ -335,30 +429,49 @@ Definition step (g : cfg) (st : state) (o : op) : state * outcome * list (ev cls
           else
             let id := k_next s in
             let row := sort_cols kw2 in
+            (* the row is in; a raising callback of RowCreateSignal skips the
+               later ones, the postponed RowCreatedSignal is still delivered (in
+               the finally); whoever raises, the constructor does not return:
+               the row stays, the application holds no instance *)
+            let p := posts_x fired SCreate k id L in
+            let a := after_x (tab g k) (p_fired p) SCreated k id in
+            let ok := negb (p_raised p) && negb (p_raised a) in
             (set_ks st k {| k_tbl := k_tbl s ++ [(id, row)];
                             k_next := id + 1;
-                            k_hs := h_put id {| h_pend := [] |} (k_hs s) |},
-             Done,
-             tr1 ++ [EWrite (WInsert k id row)]
-                 ++ run_posts SCreate k id (posts SCreate L)
-                 ++ after_part (tab g k) SCreated k id)
+                            k_hs := if ok then h_put id {| h_pend := [] |} (k_hs s) else k_hs s;
+                            k_fired := p_fired a |},
+             if ok then Done else Exn XBoom,
+             tr1 ++ [EWrite (WInsert k id row)] ++ p_tr p ++ p_tr a)
+      end
       end
   | OAssign k id c v =>
-      with_handle st k id (fun h => commit_ures st k id (assign_core g k id (h_pend h) c v))
+      with_handle st k id (fun h => commit_ures st k id (assign_core g k id (h_pend h) (k_fired (ks st k)) c v))
   | OSet k id kw0 =>
-      with_handle st k id (fun h => commit_ures st k id (set_core g k id (h_pend h) false (mk_kw kw0)))
+      with_handle st k id (fun h => commit_ures st k id (set_core g k id (h_pend h) (k_fired (ks st k)) false (mk_kw kw0)))
   | OSync k id =>
-      with_handle st k id (fun h => commit_ures st k id (sync_core g k id (h_pend h)))
+      with_handle st k id (fun h => commit_ures st k id (sync_core g k id (h_pend h) (k_fired (ks st k))))
   | ODestroy k id =>
       with_handle st k id (fun h =>
         let s := ks st k in
+        let fired := k_fired s in
         let L := sel SDestroy (tab g k) in
-        (set_ks st k {| k_tbl := tbl_delete id (k_tbl s); k_next := k_next s; k_hs := k_hs s |},
-         Done,
-         sig_events SDestroy k (Some id) L []
-           ++ [EWrite (WDelete k id)]
-           ++ run_posts SDestroy k id (posts SDestroy L)
-           ++ after_part (tab g k) SDestroyed k id))
+        match raiser fired L with
+        | Some i =>
+            (* a RowDestroySignal receiver raised: nothing deleted *)
+            (set_ks st k {| k_tbl := k_tbl s; k_next := k_next s; k_hs := k_hs s; k_fired := i :: fired |},
+             Exn XBoom, sig_events SDestroy k (Some id) (cut fired L) [])
+        | None =>
+            (* the row is gone; a raising callback of RowDestroySignal leaves
+               before RowDestroyedSignal is sent *)
+            let p := posts_x fired SDestroy k id L in
+            let a := if p_raised p then {| p_tr := []; p_fired := p_fired p; p_raised := true |}
+                     else after_x (tab g k) (p_fired p) SDestroyed k id in
+            (set_ks st k {| k_tbl := tbl_delete id (k_tbl s); k_next := k_next s; k_hs := k_hs s;
+                            k_fired := p_fired a |},
+             if p_raised a then Exn XBoom else Done,
+             sig_events SDestroy k (Some id) L []
+               ++ [EWrite (WDelete k id)] ++ p_tr p ++ p_tr a)
+        end)
   | OGet k id _ =>
       if tbl_has id (k_tbl (ks st k)) then (st, Ids [id], []) else (st, Exn XNotFound, [])
   | OSelect k => (st, Ids (map fst (k_tbl (ks st k))), [])
@@ -581,17 +694,22 @@ Definition effective (script : list reg) : tabs :=
 Definition crow := (Z * val * option lvl)%type.
 Record chstate := {
   ca : list crow; cb : list crow; cc : list crow;   (* rows of the three tables: id, own column, childName *)
-  cnext : Z                                         (* AUTOINCREMENT counter of the root table *)
+  cnext : Z;                                        (* AUTOINCREMENT counter of the root table *)
+  cfired : list Z                                   (* one-shot raising listeners that have raised *)
 }.
 Definition ctable (s : chstate) (l : lvl) : list crow :=
   match l with LA => ca s | LB => cb s | LC => cc s end.
 Definition set_ctable (s : chstate) (l : lvl) (x : list crow) : chstate :=
   match l with
-  | LA => {| ca := x; cb := cb s; cc := cc s; cnext := cnext s |}
-  | LB => {| ca := ca s; cb := x; cc := cc s; cnext := cnext s |}
-  | LC => {| ca := ca s; cb := cb s; cc := x; cnext := cnext s |}
+  | LA => {| ca := x; cb := cb s; cc := cc s; cnext := cnext s; cfired := cfired s |}
+  | LB => {| ca := ca s; cb := x; cc := cc s; cnext := cnext s; cfired := cfired s |}
+  | LC => {| ca := ca s; cb := cb s; cc := x; cnext := cnext s; cfired := cfired s |}
   end.
-Definition cinit : chstate := {| ca := []; cb := []; cc := []; cnext := 1 |}.
+Definition set_cnext (s : chstate) (n : Z) : chstate :=
+  {| ca := ca s; cb := cb s; cc := cc s; cnext := n; cfired := cfired s |}.
+Definition set_cfired (s : chstate) (f : list Z) : chstate :=
+  {| ca := ca s; cb := cb s; cc := cc s; cnext := cnext s; cfired := f |}.
+Definition cinit : chstate := {| ca := []; cb := []; cc := []; cnext := 1; cfired := [] |}.
 Definition crow_id (r : crow) : Z := fst (fst r).
 Definition ct_delete (id : Z) (t : list crow) : list crow :=
   filter (fun r => negb (Z.eqb (crow_id r) id)) t.
@@ -609,7 +727,9 @@ Record cres := {
                                     RowCreatedSignals wait in the per-thread list *)
 }.
 
-(* InheritableSQLObject.destroySelf of the instance of level (hd ls): parents first *)
+(* InheritableSQLObject.destroySelf of the instance of level (hd ls): parents
+   first.  (Restriction: the listeners of a chain raise only at
+   RowCreateSignal / RowCreatedSignal; here ARaise counts as ALog.) *)
 Fixpoint chain_destroy (t : tabs) (ls : list lvl) (id : Z) (s : chstate) : list (ev lvl) * chstate :=
   match ls with
   | [] => ([], s)
@@ -633,6 +753,13 @@ Fixpoint chain_level (t : tabs) (ls : list lvl) (seen kw : kwargs) (child : opti
   | [] => {| x_ok := None; x_tr := []; x_st := s; x_id := cnext s; x_done := [] |}
   | l :: ps =>
       let L := sel SCreate (ltab t l) in
+      match raiser (cfired s) L with
+      | Some i =>
+          (* a RowCreateSignal receiver of this level raised: nothing of this
+             level or above it has happened *)
+          {| x_ok := Some XBoom; x_tr := sig_events SCreate l None (cut (cfired s) L) seen;
+             x_st := set_cfired s (i :: cfired s); x_id := 0; x_done := [] |}
+      | None =>
       let tr0 := sig_events SCreate l None L seen in
       let c := own l in
       (* a child level checks its own required columns before creating the parent *)
@@ -656,14 +783,17 @@ Fixpoint chain_level (t : tabs) (ls : list lvl) (seen kw : kwargs) (child : opti
                 if negb (val_ok (col_ty c) v) then fail XInvalid
                 else
                   let s2 := set_ctable s1 l (ctable s1 l ++ [(id, v, child)]) in
-                  let s3 := if is_nil ps
-                            then {| ca := ca s2; cb := cb s2; cc := cc s2; cnext := id + 1 |} else s2 in
-                  {| x_ok := None;
-                     x_tr := tr0 ++ x_tr p ++ [EWrite (WInsert l id [(c, v)])]
-                                 ++ run_posts SCreate l id (posts SCreate L);
-                     x_st := s3; x_id := id; x_done := x_done p ++ [l] |}
+                  let s3 := if is_nil ps then set_cnext s2 (id + 1) else s2 in
+                  (* the row is in and its RowCreatedSignal is postponed; a
+                     raising callback of RowCreateSignal leaves the constructor
+                     (outside the try of the level below: no clean-up) *)
+                  let q := posts_x (cfired s3) SCreate l id L in
+                  {| x_ok := if p_raised q then Some XBoom else None;
+                     x_tr := tr0 ++ x_tr p ++ [EWrite (WInsert l id [(c, v)])] ++ p_tr q;
+                     x_st := set_cfired s3 (p_fired q); x_id := id; x_done := x_done p ++ [l] |}
             end
         end
+      end
   end.
 
 (* keys of kw must belong to the level or its ancestors *)
@@ -672,8 +802,21 @@ Definition chain_kw_ok (l : lvl) (kw : kwargs) : bool :=
 
 Inductive coutcome := CDone (id : Z) | CExn (e : exn) | CBadInput.
 
+(* the per-thread list is flushed: RowCreatedSignal + callbacks level by
+   level, until somebody raises *)
+Fixpoint flush_x (t : tabs) (fired : list Z) (id : Z) (done : list lvl) : phase lvl :=
+  match done with
+  | [] => {| p_tr := []; p_fired := fired; p_raised := false |}
+  | a :: r =>
+      let x := after_x (ltab t a) fired SCreated a id in
+      if p_raised x then x
+      else let y := flush_x t (p_fired x) id r in
+           {| p_tr := p_tr x ++ p_tr y; p_fired := p_fired y; p_raised := p_raised y |}
+  end.
+
 (* the outermost constructor: the postponed RowCreatedSignals are delivered in
-   its `finally`, whether or not the creation succeeded *)
+   its `finally`, whether or not the creation succeeded; an exception raised
+   there replaces the one on its way out *)
 Definition chain_create (t : tabs) (l : lvl) (kw0 : list (col * val)) (s : chstate)
   : chstate * coutcome * list (ev lvl) :=
   let kw := mk_kw kw0 in
@@ -681,8 +824,10 @@ Definition chain_create (t : tabs) (l : lvl) (kw0 : list (col * val)) (s : chsta
   else
     let r := chain_level t (lineage l) kw kw None s in
     (* all levels share the id the root INSERT got *)
-    let tail := flat_map (fun a => after_part (ltab t a) SCreated a (cnext s)) (x_done r) in
-    (x_st r, match x_ok r with None => CDone (x_id r) | Some e => CExn e end, x_tr r ++ tail).
+    let f := flush_x t (cfired (x_st r)) (cnext s) (x_done r) in
+    (set_cfired (x_st r) (p_fired f),
+     if p_raised f then CExn XBoom else match x_ok r with None => CDone (x_id r) | Some e => CExn e end,
+     x_tr r ++ p_tr f).
 
 Record crec := { cr_lvl : lvl; cr_out : coutcome; cr_tr : list (ev lvl); cr_post : chstate }.
 Fixpoint chain_run (t : tabs) (s : chstate) (ops : list (lvl * list (col * val))) : list crec :=
